@@ -569,7 +569,6 @@ func checkSplit(c *Ctx, split *ssa.Function) {
 		"the end marker is searched in data[pos+len(start):]", "the end marker is not searched in the bytes following the start marker", nil)
 }
 
-
 // constAdvance: v = phi + d for a constant d, through a chain of constant additions.
 func constAdvance(v ssa.Value, phi *ssa.Phi, env map[ssa.Value]ssa.Value, depth int) (int64, bool) {
 	if v == ssa.Value(phi) {
